@@ -30,6 +30,7 @@ ATOM_TEXT = {
     "num": "42",
     "sq": "'s q'",
     "dq": '"d q"',
+    "sqesc": "'it\\'s #1'",
     "env": "$VV",
     "envbr": "${'VV'}",
     "pyeval": "@(pv)",
